@@ -45,7 +45,10 @@ MANIFEST = {
             "required parameters are given), that a class gets one construction with only the constructor's parameters and one call of the chosen "
             "method with only its own (C12_class, C12_class_plain), that a missing required parameter is an error without any call (C12_required, "
             "C12_class_required), that Optional parameters without default are options defaulting to None (C12_optional_none*), and that for every "
-            "list / nested dict of components the subcommand chain leads to exactly the selected component (C12_dispatch, C12_tree_*), and that a value "
+            "list / nested dict of components the subcommand chain leads to exactly the selected component (C12_dispatch, C12_tree_*; C12_tree_dispatch: "
+            "for a tree of any depth exactly the component at the selected path runs - function once, or constructor then chosen method, each once, "
+            "each with bind of its own signature over its own level's values (C12_bind_exact), the innermost value returned - under the decidable "
+            "guard dispatchGuard that names the excluded finding classes; C12_root_dispatch for a single root component), and that a value "
             "is bound verbatim in every file system unless the parameter is class-typed / returns a class, the only kinds for which enable_path is set "
             "(C12_verbatim, C12_verbatim_values, C12_enable_path_witness; expression, sub_configs and a live per-annotation table regenerated and pinned by "
             "C12_enable_path_pinned). The model is "
